@@ -15,6 +15,7 @@ VERIF = mir.VERIF
 
 # property -> list of rule modules (each has run(ctx)); shared modules implement dependencies between properties
 PROPERTIES = {
+    'C01': ['c01'],
     'C03': ['c03'],
     'C06': ['c06'],
     'C08': ['c08'],
